@@ -124,6 +124,41 @@ def run(ck, F, E):
                        "the edit path also modifies %s: variable and array contents must be kept" % sorted(touched),
                        c.span)
 
+    # ---- (5b) a rejected edit invalidates nothing: neither the part of the edit path that runs before the
+    # tokenizer's verdict nor the error epilogue may write a runtime reference or the line store
+    keep = [h for h in hs if h != "location"] + ["lines"]
+    pp_ = get_fn(ck, F, "Interpreter::postprocess_result")
+    if pp_ is not None:
+        w = program_fields_written(E, pp_.path)
+        bad = sorted(set(w) & set(keep))
+        ck.require(not bad, "C11:REJECTED:epilogue", "rejected edit",
+                   "Interpreter::postprocess_result (the error epilogue every rejected edit passes through) writes none of "
+                   "Program.{%s}" % ",".join(keep),
+                   "the error epilogue Interpreter::postprocess_result resets Program.%s: a rejected edit (tokenization "
+                   "error) passes through it and must invalidate nothing" % bad, pp_.span)
+    if ev is not None:
+        tk = [c2 for c2 in ev.calls() if c2.callee.endswith("Tokenizer::remaining_tokens")]
+        if len(tk) != 1:
+            ck.missing("C11:REJECTED:prologue", "the tokenizer call of the edit path")
+        else:
+            dom = ev.dominators()
+            before = [c2 for c2 in ev.calls() if c2.bb != tk[0].bb and c2.bb in dom[tk[0].bb] and c2.is_local
+                      and not c2.callee.endswith("Interpreter::maybe_process_command")]
+            bad = {}
+            for c2 in before:
+                w = call_program_fields_written(E, ev, c2)
+                for h in set(w) & set(keep):
+                    # the one accepted idiom: the subroutine stack may be dropped by the line-entry protocol when
+                    # there is no breakpoint (nothing can be resumed then, and every entered line does the same)
+                    if h == "stack" and writes_only_without_breakpoint(F, E, c2.callee, "stack"):
+                        continue
+                    bad.setdefault(h, c2.callee)
+            ck.require(not bad, "C11:REJECTED:prologue", "rejected edit",
+                       "the %d local calls that run before the tokenizer's verdict write none of Program.{%s}" %
+                       (len(before), ",".join(keep)),
+                       "before the line is known to tokenize, the edit path already resets %s" %
+                       ", ".join("Program.%s (via %s)" % kv for kv in sorted(bad.items())), ev.span)
+
     # ---- (6) consumers report the right error on the emptied state
     consumer(ck, F, "Program::continue_from_breakpoint", "breakpoint", "CannotContinue")
     consumer_pop(ck, F)
@@ -141,6 +176,90 @@ def run(ck, F, E):
         ck.require(ok, "C11:CONSUMER:READ", "consumer", "next_data_element rebuilds a missing cursor from "
                    "ProgramLines::data_iterator() of the current lines",
                    "next_data_element no longer rebuilds the DATA cursor from the current program lines", nd.span)
+
+
+def program_fields_written(E, path):
+    """Names of the Program fields (reached through parameter 0 = &mut Interpreter) a function may write."""
+    out = set()
+    for (k, p) in E.info[path].writes:
+        if k == 0 and len(p) >= 2 and p[0][1] == "program":
+            out.add(p[1][1])
+        elif k == 0 and len(p) == 1 and p[0][1] == "program":
+            out.add("*")
+        elif k == "?":
+            out.add("?")
+    return out
+
+
+def call_program_fields_written(E, ev, c2):
+    out = set()
+    if c2.callee not in E.info:
+        return out
+    ci = E.info[c2.callee]
+    for (k, p) in ci.writes:
+        if k == "?" or k >= len(c2.args):
+            continue
+        for (r, pp, m) in E._map_callee_loc(E.info[ev.path], c2.args[k], p, ci.param_is_ref[k]):
+            if r == ("p", 0) and len(pp) >= 2 and pp[0][1] == "program":
+                out.add(pp[1][1])
+    return out
+
+
+def writes_only_without_breakpoint(F, E, callee, field):
+    """Every site of `callee` that writes Program.<field> is control dependent on `breakpoint` being None."""
+    from lib import controlling_switches, bool_switch_true_target, expr_has_field
+    body = F.bodies.get(callee)
+    if body is None:
+        return False
+    fi = E.info[callee]
+    sites = []
+    for c in body.calls():
+        ws = set()
+        if c.callee in E.info:
+            ci = E.info[c.callee]
+            for (k, p) in ci.writes:
+                if k == "?" or k >= len(c.args):
+                    continue
+                for (r, pp, m) in E._map_callee_loc(fi, c.args[k], p, ci.param_is_ref[k]):
+                    if r == ("p", 0) and pp and pp[0][1] == field:
+                        ws.add(field)
+        else:
+            # std call with a &mut receiver derived from self.<field>
+            for a in c.args[:1]:
+                e = body.expr(a)
+                if expr_has_field(e, field) and not c.callee.split("::")[-1] in ("len", "is_empty", "iter", "last", "get", "is_none", "is_some"):
+                    ws.add(field)
+        if ws:
+            sites.append(c.bb)
+    for b2, i2, pl2, rv2, sp2 in body.assigns():
+        for (r, pp, m, d) in E.resolve(fi, pl2):
+            if d and r == ("p", 0) and pp and pp[0][1] == field:
+                sites.append(b2)
+    if not sites:
+        return False
+    for bb in sites:
+        ok = False
+        for (sb, subj, names) in controlling_switches(body, bb):
+            if not expr_has_field(subj, "breakpoint"):
+                continue
+            if names:
+                none_t = [body.switch_info(sb)[1].get(v) for v, n in names.items() if n == "None"]
+                none_t = [t for t in none_t if t is not None]
+                others = [x for x in body.succs(sb) if x not in none_t]
+                if none_t and all(bb not in body.blocks_reachable_from(x) and bb != x for x in others):
+                    ok = True
+            else:
+                ft = bool_switch_true_target(body, sb)
+                calls = [x[1] for x in expr_calls(subj)]
+                if ft and any(x.endswith("is_none") for x in calls):
+                    if bb not in body.blocks_reachable_from(ft[0]) and bb != ft[0]:
+                        ok = True
+                elif ft and any(x.endswith("is_some") for x in calls):
+                    if bb not in body.blocks_reachable_from(ft[1]) and bb != ft[1]:
+                        ok = True
+        if not ok:
+            return False
+    return True
 
 
 def show_calls(e):
